@@ -423,16 +423,16 @@ impl Interpreter {
                 state.stack.push_bigint(a % b)?;
             }
             OpCodes::OP_LSHIFT => {
-                let a = state.stack.pop_bigint()?;
-                let b = state.stack.pop_number()?;
+                let bits = state.stack.pop_number()?;
+                let data = state.stack.pop_bytes()?;
 
-                state.stack.push_bigint(a << b)?;
+                state.stack.push(shift_bytes(&data, bits, true)?);
             }
             OpCodes::OP_RSHIFT => {
-                let a = state.stack.pop_bigint()?;
-                let b = state.stack.pop_number()?;
+                let bits = state.stack.pop_number()?;
+                let data = state.stack.pop_bytes()?;
 
-                state.stack.push_bigint(a >> b)?;
+                state.stack.push(shift_bytes(&data, bits, false)?);
             }
             OpCodes::OP_BOOLAND => {
                 let a = state.stack.pop_bool()?;
@@ -655,6 +655,32 @@ impl Interpreter {
 
         Ok(state.clone())
     }
+}
+
+/// OP_LSHIFT / OP_RSHIFT: logical shift of a byte string seen as a big endian bit string, the length does not change.
+fn shift_bytes(data: &[u8], bits: i32, left: bool) -> Result<Vec<u8>, InterpreterError> {
+    if bits < 0 {
+        return Err(InterpreterError::InvalidStackOperation("Shift count must not be negative"));
+    }
+
+    let len = data.len();
+    let byte_shift = bits as usize / 8;
+    let bit_shift = bits as u32 % 8;
+    let mut shifted = vec![0u8; len];
+    for i in 0..len {
+        // Every output byte is assembled from two neighbouring source bytes
+        let (first, second) = match left {
+            true => (i.checked_add(byte_shift), i.checked_add(byte_shift + 1)),
+            false => (i.checked_sub(byte_shift), i.checked_sub(byte_shift + 1)),
+        };
+        let first = first.and_then(|k| data.get(k)).copied().unwrap_or(0);
+        let second = second.and_then(|k| data.get(k)).copied().unwrap_or(0);
+        shifted[i] = match left {
+            true => (first << bit_shift) | second.checked_shr(8 - bit_shift).unwrap_or(0),
+            false => (first >> bit_shift) | second.checked_shl(8 - bit_shift).unwrap_or(0),
+        };
+    }
+    Ok(shifted)
 }
 
 fn checksig(state: &mut State, txscript: &mut TxScript) -> Result<bool, InterpreterError> {
